@@ -416,10 +416,107 @@ static void seq_case(vf::Ctx& c) {
     c.nontrivial = frames >= 2 && (e.checksum || e.magicless || e.windowLog || e.maxBlock || resets || dict_frames);
 }
 
+
+// ---- generated DCtx sequences: dictionaries and parameters stay in force until reset, a prefix serves one frame ----
+static std::vector<uint8_t> g_golden;
+static std::vector<uint8_t> make_frame(const std::vector<uint8_t>& x, int kind, const std::vector<uint8_t>& raw, int wlog) {
+    // kind 0 plain, 1 golden dictionary (dictID), 2 raw-content dictionary, 3 prefix
+    ZSTD_CCtx* c = ZSTD_createCCtx();
+    ZSTD_CCtx_setParameter(c, ZSTD_c_checksumFlag, 1);
+    if (wlog) ZSTD_CCtx_setParameter(c, ZSTD_c_windowLog, wlog);
+    if (kind == 1) ZSTD_CCtx_loadDictionary(c, g_golden.data(), g_golden.size());
+    if (kind == 2) ZSTD_CCtx_loadDictionary(c, raw.data(), raw.size());
+    if (kind == 3) ZSTD_CCtx_refPrefix(c, raw.data(), raw.size());
+    std::vector<uint8_t> out(ZSTD_compressBound(x.size()) + 64);
+    ZSTD_inBuffer in = {x.data(), x.size(), 0}; ZSTD_outBuffer ob = {out.data(), out.size(), 0};
+    size_t r = ZSTD_compressStream2(c, &ob, &in, wlog ? ZSTD_e_flush : ZSTD_e_end);   // a flush first: size unknown, the window is declared as set
+    while (!ZSTD_isError(r) && (r = ZSTD_compressStream2(c, &ob, &in, ZSTD_e_end)) != 0) {}
+    ZSTD_freeCCtx(c);
+    out.resize(ZSTD_isError(r) ? 0 : ob.pos);
+    return out;
+}
+static size_t dec_stream(ZSTD_DCtx* d, const std::vector<uint8_t>& f, std::vector<uint8_t>& out) {
+    out.clear(); std::vector<uint8_t> ob(1 << 16);
+    ZSTD_inBuffer in = {f.data(), f.size(), 0}; size_t r = 1; unsigned g = 0;
+    while (r != 0) {
+        ZSTD_outBuffer o = {ob.data(), ob.size(), 0};
+        size_t ip = in.pos;
+        r = ZSTD_decompressStream(d, &o, &in);
+        if (ZSTD_isError(r)) return r;
+        out.insert(out.end(), ob.data(), ob.data() + o.pos);
+        if (r != 0 && in.pos == ip && o.pos == 0) return (size_t)-ZSTD_error_srcSize_wrong;   // input ended inside the frame
+        if (++g > 100000) return (size_t)-ZSTD_error_GENERIC;
+    }
+    return 0;
+}
+static void dseq_case(vf::Ctx& c) {
+    vf::Tape& t = c.t;
+    if (g_golden.empty()) { const char* repo = getenv("VERIF_REPO"); std::string p = std::string(repo ? repo : "/repo") + "/tests/golden-dictionaries/http-dict-missing-symbols"; FILE* f = fopen(p.c_str(), "rb"); VF_CHECK(c, f != nullptr, "golden dictionary missing"); uint8_t b[4096]; size_t r; while ((r = fread(b, 1, sizeof b, f)) > 0) g_golden.insert(g_golden.end(), b, b + r); fclose(f); }
+    std::vector<uint8_t> raw = gen::gen_content_sized(t, (size_t)t.range(2000, 20000));
+    if (raw.size() >= 4 && raw[0] == 0x37 && raw[1] == 0xA4) raw[0] = 1;
+    std::vector<uint8_t> x = gen::gen_content_sized(t, (size_t)t.range(3000, 60000));
+    // the content leans on the dictionaries so that decoding without the right one cannot come out right
+    for (size_t i = 0; i + 600 < x.size() && i < 6000; i += 1200) { memcpy(&x[i], &raw[raw.size() - 500], 500); }
+    std::vector<uint8_t> xg = x; for (size_t i = 0; i + 600 < xg.size() && i < 6000; i += 1200) memcpy(&xg[i], &g_golden[g_golden.size() - 500], 500);
+    std::vector<uint8_t> frames[5] = {make_frame(x, 0, raw, 0), make_frame(xg, 1, raw, 0), make_frame(x, 2, raw, 0), make_frame(x, 3, raw, 0), make_frame(x, 0, raw, 20)};
+    const std::vector<uint8_t>* plain[5] = {&x, &xg, &x, &x, &x};
+    static const char* fname[5] = {"plain", "golden-dictionary", "raw-dictionary", "prefix", "plain-window-2^20"};
+    for (auto& f : frames) VF_CHECK(c, !f.empty(), "frame preparation failed");
+    ZSTD_DCtx* d = ZSTD_createDCtx(); ZSTD_DDict* dd = ZSTD_createDDict(g_golden.data(), g_golden.size());
+    struct G { ZSTD_DCtx* d; ZSTD_DDict* dd; ~G() { ZSTD_freeDCtx(d); ZSTD_freeDDict(dd); } } g{d, dd};
+    int dmode = 0, maxwl = 0;   // 0 none, 1 raw loaded, 2 golden loaded, 3 golden DDict referenced, 4 raw prefix (one frame)
+    unsigned steps = (unsigned)t.range(3, 16), decodes = 0, sticky_uses = 0, drops_checked = 0; bool was_dropped = false;
+    for (unsigned s = 0; s < steps; s++) {
+        switch (t.weighted({3, 6, 1, 1, 1})) {
+            case 0: {
+                int k = (int)t.range(1, 5); size_t r = 0;
+                if (k == 1) r = ZSTD_DCtx_loadDictionary(d, raw.data(), raw.size());
+                if (k == 2) r = ZSTD_DCtx_loadDictionary(d, g_golden.data(), g_golden.size());
+                if (k == 3) r = ZSTD_DCtx_refDDict(d, dd);
+                if (k == 4) r = ZSTD_DCtx_refPrefix(d, raw.data(), raw.size());
+                if (k == 5) { r = ZSTD_DCtx_loadDictionary(d, nullptr, 0); k = 0; was_dropped = true; }
+                VF_CHECK(c, !ZSTD_isError(r), "setting dictionary kind %d on a DCtx between frames: %s", k, ZSTD_getErrorName(r));
+                dmode = k; c.note("dict%d ", k); break;
+            }
+            case 1: {
+                int fi = (int)t.range(0, 4);
+                // expectation = what a FRESH DCtx with exactly the dictionary and limit in force does with this frame
+                bool expect_ok;
+                {
+                    ZSTD_DCtx* fr = ZSTD_createDCtx();
+                    if (maxwl) ZSTD_DCtx_setParameter(fr, ZSTD_d_windowLogMax, maxwl);
+                    if (dmode == 1) ZSTD_DCtx_loadDictionary(fr, raw.data(), raw.size());
+                    if (dmode == 2) ZSTD_DCtx_loadDictionary(fr, g_golden.data(), g_golden.size());
+                    if (dmode == 3) ZSTD_DCtx_refDDict(fr, dd);
+                    if (dmode == 4) ZSTD_DCtx_refPrefix(fr, raw.data(), raw.size());
+                    std::vector<uint8_t> o2; size_t r2 = dec_stream(fr, frames[fi], o2);
+                    ZSTD_freeDCtx(fr);
+                    expect_ok = !ZSTD_isError(r2);
+                    if (expect_ok) VF_CHECK(c, o2 == *plain[fi], "reference decode produced wrong bytes");
+                }
+                std::vector<uint8_t> out; size_t r = dec_stream(d, frames[fi], out);
+                bool ok = !ZSTD_isError(r);
+                if (expect_ok) VF_CHECK(c, ok && out == *plain[fi], "%s frame with dictionary state %d, windowLogMax %d in force: %s (decode %u of the sequence, %u sticky uses before)", fname[fi], dmode, maxwl, ok ? "decoded to different bytes" : ZSTD_getErrorName(r), decodes, sticky_uses);
+                else VF_CHECK(c, !ok, "%s frame decoded successfully on the long-lived DCtx although a fresh DCtx with dictionary state %d and windowLogMax %d refuses it (a dropped dictionary / reset parameter is still in effect, or a limit in force was ignored)", fname[fi], dmode, maxwl);
+                if (expect_ok && fi >= 1 && fi <= 3 && dmode != 4) sticky_uses++;
+                if (!expect_ok && was_dropped && fi >= 1 && fi <= 3) drops_checked++;
+                if (!ok) ZSTD_DCtx_reset(d, ZSTD_reset_session_only);
+                if (dmode == 4) { if (!ok) ZSTD_DCtx_refPrefix(d, nullptr, 0); dmode = 0; }   // a prefix serves one frame
+                decodes++; c.note("dec(%s,%s) ", fname[fi], ok ? "ok" : "err"); break;
+            }
+            case 2: { maxwl = t.flip() ? 15 : 25; VF_CHECK(c, !ZSTD_isError(ZSTD_DCtx_setParameter(d, ZSTD_d_windowLogMax, maxwl)), "set windowLogMax"); c.note("wlmax=%d ", maxwl); break; }
+            case 3: { if (dmode == 4) { ZSTD_DCtx_refPrefix(d, nullptr, 0); dmode = 0; } VF_CHECK(c, !ZSTD_isError(ZSTD_DCtx_reset(d, ZSTD_reset_session_only)), "session reset"); c.note("reset_session "); break; }
+            default: { VF_CHECK(c, !ZSTD_isError(ZSTD_DCtx_reset(d, t.flip() ? ZSTD_reset_parameters : ZSTD_reset_session_and_parameters)), "parameter reset"); if (dmode) was_dropped = true; dmode = 0; maxwl = 0; c.note("reset_params "); break; }
+        }
+    }
+    c.label("mode:dctx_sequence"); c.label("dseq_sticky_dictionary_uses", sticky_uses); c.label("dseq_refusals_after_drop", drops_checked);
+    c.nontrivial = decodes >= 2 && (sticky_uses >= 2 || drops_checked);
+}
+
 void vf_case(vf::Ctx& c) {
     vf::Tape& t = c.t;
     unsigned mode = (unsigned)t.raw();
-    if (mode != 1) { seq_case(c); return; }
+    if (mode != 1) { if (mode % 4 == 0) dseq_case(c); else seq_case(c); return; }
     unsigned target = (unsigned)t.raw(), stage = (unsigned)t.raw() % NSTAGES;
     unsigned total = (unsigned)(2 * NCP + NDP);
     target %= total;
